@@ -505,7 +505,9 @@ class ApplyLinks(Processor):
         # now we add all interactions but not the ones that contain the removed
         # nodes
         for inter_type in self.applied_links:
-            for atoms, (interaction, citation) in self.applied_links[inter_type].items():
+            for key, (interaction, citation) in self.applied_links[inter_type].items():
+                # the last element of the key is the version and not an atom
+                atoms = key[:-1]
                 if not any(atom in self.nodes_to_remove for atom in atoms):
                     meta_molecule.molecule.interactions[inter_type].append(interaction)
                     meta_molecule.molecule.citations.update(citation)
